@@ -1,7 +1,7 @@
 """C12 — results do not depend on build configuration or tuning parameters."""
 import engine, ops, vlib, corr
 
-PROOFS = []
+PROOFS = ["Properties_C12"]
 ALG_PROPS = ("C01", "C02", "C03", "C04", "C05", "C06", "C07")
 
 
